@@ -628,3 +628,17 @@ Fixpoint closb0 (n : nat) (o : wopts) (e : env) (s : schema) (a : aval) {struct 
     | _, _ => true
     end
   end.
+
+(* harness glue: closb0 (side condition of C01_normal_form_fixed) on the written value, and the model's own check of the
+   fixed point: read without names, write back, same bytes? *)
+Definition run_closb0 (wo : wopts) (e : env) (s : schema) (v : pyval) : string :=
+  match elab FUEL2 wo e s v with
+  | WOk a =>
+      ((if closb0 FUEL2 wo e s a then "1" else "0") ++
+       match py_of ropts0 e s a with
+       | Some pv => match write FUEL2 wo e s pv with
+                    | WOk bs => if bytes_eqb bs (wire a) then "s" else "d"
+                    | _ => "x" end
+       | None => "?" end)%string
+  | _ => "-"%string
+  end.
